@@ -90,6 +90,8 @@ class StochHooks(Hooks):
         if bad:
             it.fault('refuse')
             it.probe('shot_bad_signal:%s' % method)
+            if np.min(img) < 0 and np.min(img) > -1e-6 * np.max(img):
+                it.probe('shot_tiny_negative')
             if out.ok:
                 it.violate('C18.support', {'fn': 'shot_noise', 'method': method,
                                            'what': 'negative-accepted' if np.min(img) < 0 else 'huge-accepted'},
@@ -156,6 +158,8 @@ class StochHooks(Hooks):
             it.probe('dark_no_fpn')
             if fn == 'dark_current':
                 rate = float(ev['a'][0])
+                if rate >= 1e9 or abs(rate - round(rate)) < 1e-6:
+                    it.probe('dark_rate_at_an_edge')
                 if np.any(r != np.floor(rate)):
                     it.violate('C18.support', {'fn': fn, 'what': 'floor-of-rate'}, 'dark frame without pattern noise is %s, floor(rate) = %g'
                                % (np.unique(r)[:4], np.floor(rate)), i)
@@ -228,7 +232,8 @@ class StochasticScenario(Scenario):
                    'pixel >= 100 on >= 16 pixels (collision probability < 1e-30)',
                    'seed=None (OS entropy) is never used: the simulator always passes seeds']
     must_hit = ['seeded_after_reseed', 'psd_nonsquare', 'psd_square', 'shot_bad_signal:gaussian', 'shot_bad_signal:poisson',
-                'moments:shot_poisson', 'moments:shot_gaussian', 'moments:read', 'dark_no_fpn', 'cosmic_hit', 'layout_twin']
+                'moments:shot_poisson', 'moments:shot_gaussian', 'moments:read', 'dark_no_fpn', 'cosmic_hit', 'layout_twin',
+                'shot_tiny_negative', 'dark_rate_at_an_edge']
     probe_names = must_hit + ['coldwarm_audit']
 
     # ---------------------------------------------------------------- generation
@@ -250,6 +255,11 @@ class StochasticScenario(Scenario):
         # a pixel between the documented 10-sigma guard (9.223372006e18) and 2**63
         ev.append({'c': -1, 'fn': 'array', 'id': 'HUGE2', 'recipe': {'kind': 'add', 'x': {'kind': 'uniform', 'shape': 'F', 'lo': 1500.0, 'hi': 5000.0, 'seed': 3},
                                                                      'y': {'kind': 'spike', 'shape': 'F', 'value': 9.2233720300e18, 'pos': [0, 1]}}})
+        # a negative pixel that is tiny next to the frame's peak is still a negative signal
+        bg, peak, neg = rng.choice([(3000.0, 5000.0, -1e-12), (1e4, 1e4, -1e-4), (2000.0, 1e7, -0.1), (5000.0, 1e10, -100.0), (50.0, 80.0, -1e-300)])
+        ev.append({'c': -1, 'fn': 'array', 'id': 'NEGT', 'recipe': {'kind': 'set', 'x': {'kind': 'const', 'shape': 'F', 'value': bg},
+                                                                    'pixels': [[0, 0, peak], [rng.randint(0, 2), rng.randint(1, 2), neg]]}})
+        ev.append({'c': -1, 'fn': 'array', 'id': 'NEGALL', 'recipe': {'kind': 'const', 'shape': 'F', 'value': rng.choice([-3.0, -1e-9, -2000.0])}})
         # integer-typed electron frames (read noise must still be zero-mean with the requested sigma)
         ev.append({'c': -1, 'fn': 'array', 'id': 'IMGI', 'recipe': {'kind': 'integers', 'shape': 'F', 'lo': 100, 'hi': 5000, 'seed': rng.randrange(10 ** 6),
                                                                     'dtype': rng.choice(['int32', 'int64', 'uint16'])}})
@@ -294,8 +304,8 @@ class StochasticScenario(Scenario):
             r = rng.random()
             if r < 0.3:
                 method = rng.choice(['poisson', 'gaussian'])
-                img = rng.choice(['FLAT', 'IMG', 'IMGL', 'FLATG', 'NEG', 'HUGE', 'HUGE2', 'IMG_F', 'IMG_T']) if method == 'poisson' else \
-                    rng.choice(['FLATG', 'IMG', 'FLATG', 'NEG', 'HUGE', 'IMGL', 'HUGE2', 'IMGG', 'FLATG_F', 'IMG_F', 'IMG_T'])
+                img = rng.choice(['FLAT', 'IMG', 'IMGL', 'FLATG', 'NEG', 'HUGE', 'HUGE2', 'IMG_F', 'IMG_T', 'NEGT', 'NEGALL']) if method == 'poisson' else \
+                    rng.choice(['FLATG', 'IMG', 'FLATG', 'NEG', 'HUGE', 'IMGL', 'HUGE2', 'IMGG', 'FLATG_F', 'IMG_F', 'IMG_T', 'NEGT', 'NEGT', 'NEGALL'])
                 E('shot_noise', ['@' + img], {'method': method, 'seed': seed()},
                   t={'distinct_expected': img in ('IMG', 'IMG_F', 'IMG_T')})
                 if img in ('IMG', 'IMGG') and rng.random() < 0.5:
@@ -309,7 +319,9 @@ class StochasticScenario(Scenario):
             elif r < 0.45:
                 E('read_noise', ['@' + rng.choice(['IMG', 'FLAT', 'IMGI']), rng.choice([0.4, 1.0, 5.0, 12.5])], {'seed': seed()}, t={'distinct_expected': True})
             elif r < 0.6:
-                E('dark_current', [rng.choice([0.4, 5.7, 100.0, 1234.9])],
+                k_ = rng.choice([1, 7, 100, 65535])
+                edge = [k_ - 1e-9, float(np.nextafter(float(k_), 0.0)), 0.9999999, float(k_), k_ + 1e-9, 987233471889.0, 1e10 + 3.0, 2.0 ** 40 + 1, 0.0, 1e-12]
+                E('dark_current', [rng.choice([0.4, 5.7, 100.0, 1234.9]) if rng.random() < 0.5 else rng.choice(edge)],
                   {'shape': rng.choice([[4, 5], [6, 6], [3, 8]]), 'fpn_factor': rng.choice([0, 0, 0.1, 0.3]), 'seed': seed()})
             elif r < 0.7:
                 E('rule07_dark_current', [rng.choice([80.0, 120.0, 160.0]), rng.choice([2.5e-6, 5e-6, 10e-6]), rng.choice([10e-6, 18e-6])],
@@ -411,6 +423,11 @@ class StochasticScenario(Scenario):
             E('read_noise', ['@IMG', 7.5], {'seed': 3}, t={'distinct_expected': True})
             E('read_noise', ['@IMG', 7.5], {'seed': 4}, t={'distinct_expected': True})
             E('dark_current', [17.9], {'shape': [5, 7], 'fpn_factor': 0, 'seed': 1})
+            for rate_ in (7 - 1e-9, float(np.nextafter(100.0, 0.0)), 0.9999999, 987233471889.0, 65535.0):
+                E('dark_current', [rate_], {'shape': [3, 4], 'fpn_factor': 0, 'seed': 1})
+            for method in ('poisson', 'gaussian'):
+                E('shot_noise', ['@NEGT'], {'method': method, 'seed': 5})
+                E('shot_noise', ['@NEGALL'], {'method': method, 'seed': 5})
             E('dark_current', [17.9], {'shape': [5, 7], 'fpn_factor': 0.3, 'seed': 1})
             events.append({'env': 'perturb', 'target': '@p%d' % n[0], 'seed': 3, 'unshared': True})
             E('dark_current', [17.9], {'shape': [5, 7], 'fpn_factor': 0.3, 'seed': 1}, t={'dup': True})
